@@ -723,6 +723,12 @@ def class_subobjects_skips(P: Program) -> Tuple[Optional[Set[str]], str]:
                     a, ex = tag_equalities(conj_atoms(b.ast, b.pol), var)
                     if not (ex and not a):
                         return None, 'yield is guarded by `%s`' % norm(b.ast)
+                    # form 3: the yield sits under `name not in ('self', ..)` / `name != 'self'`: those names are skipped
+                    for x in ex:
+                        try:
+                            skips.add(ast.literal_eval(x))
+                        except Exception:
+                            return None, 'non-literal exclusion %s' % x
     return skips, 'ok'
 
 
@@ -2427,7 +2433,7 @@ def r12_sinks(ctx):
                   floor=2)
     sites = by_factory.get('dumps_function', []) + by_factory.get('dump_function', [])
     for fi, c in sites:
-        r1.check(kwset(c) == {} and norm(c.args[0]) == fi.params[1], '%s %s: yaml.dump(obj%s) with no further options'
+        r1.check(kwset(c) == {} and bool(c.args) and len(fi.params) > 1 and norm(c.args[0]) == fi.params[1], '%s %s: yaml.dump(obj%s) with no further options'
                  % (fi.qual, _site_tag(fi, c), ', sink' if len(c.args) > 1 else ''), '%s:yaml.dump:options:%s' % (fi.key, _site_tag(fi, c)),
                  fi.loc(c), 'YAML dump site passes %s: the text differs from what the other sinks produce' % kwset(c))
     r1.done()
